@@ -64,7 +64,7 @@ FUEL = 400                # iteration budget given to the model; the real loop n
 TPD_NEG = 1e-7            # a tangent-plane distance below -TPD_NEG is a stability failure (flash tolerance squared, rounded up)
 Z_IDEAL = 0.95            # "near-ideal compressibility"
 PR_LOW = 0.2              # "low reduced pressure" (pseudo-critical pressure = mole-fraction mean of Pc)
-EXCLUDE = ()
+EXCLUDE = ()               # hydrogen is included since z_pr was repaired (commit 974255e); a NaN from the EOS is skipped and counted
 
 
 EXPECTED_THEOREMS = [
@@ -508,6 +508,24 @@ def gen_feeds(ctx):
                  'P': 5904622.087575287, 'K0': None, 'tag': 'supercritical'})
     jobs.append({'composition': ['methane', 'argon'], 'm': [0.354271167501782, 0.00046553454931926475], 'T': 361.65053273854073,
                  'P': 17509328.78543206, 'K0': None, 'tag': 'supercritical'})
+    # hydrogen-rich feeds at high pressure (the fixed one was found by the random search: reported as one phase, unstable)
+    jobs.append({'composition': ['neohexane', 'n-decane', 'n-hexane', 'hydrogen', 'hydrogen_sulfide'],
+                 'm': [0.14833924978240257, 0.014147196942160328, 0.5268357381769898, 0.9705940146954938, 1.3586451787102498],
+                 'T': 288.59239492044503, 'P': 44604072.833551995, 'K0': None, 'tag': 'hydrogen-rich'})
+    heavier = [c for c in pool if c not in scen_mix.LIGHT]
+    for _ in range(ctx.n(10, 300)):
+        names = ['hydrogen'] + r.sample(heavier, r.randint(1, 4))
+        r.shuffle(names)
+        zt = scen_mix.dirichlet(r, len(names) - 1, 1.0)
+        zh = r.uniform(0.5, 0.98)
+        fmtmp = _fm(names)
+        zz = [zh if nme == 'hydrogen' else None for nme in names]
+        it = iter(zt)
+        zz = [x if x is not None else (1. - zh) * next(it) for x in zz]
+        mass = [a * float(b) for a, b in zip(zz, fmtmp.M)]
+        tot = scen_mix.log_uniform(r, 1e-6, 1e2) / sum(mass)
+        jobs.append({'composition': names, 'm': [x * tot for x in mass], 'T': r.uniform(270., 420.),
+                     'P': scen_mix.log_uniform(r, 1e7, 5e7), 'K0': None, 'tag': 'hydrogen-rich'})
     gases = ['oxygen', 'argon', 'nitrogen', 'carbon_monoxide', 'methane']
     for _ in range(ctx.n(20, 600)):
         names = r.sample(gases, r.randint(2, 4))
@@ -704,7 +722,9 @@ def check_feed(ctx, res, lines, line_owner):
     if t is not None:
         ctx.count('flash:tpd-trials', t['n'] - t['skipped'])
         if t['min'] < -TPD_NEG:
-            ctx.violation('negative-tangent-plane-distance', 'a trial composition has a negative tangent-plane distance from a feed reported as one phase',
+            zh = float(z[c['composition'].index('hydrogen')]) if 'hydrogen' in c['composition'] else 0.
+            key = 'unstable-single-phase-hydrogen-rich-high-pressure' if (zh >= 0.5 and c['P'] >= 3e7) else 'negative-tangent-plane-distance'
+            ctx.violation(key, 'a trial composition has a negative tangent-plane distance from a feed reported as one phase',
                           dict(case, row=row, tpd=t['min'], trial=t['arg']))
     return 'single'
 
